@@ -21,7 +21,7 @@ class C17(Prop):
             api = r.choice(["json", "json", "standjson", "yaml"])
             doc, good, bad = r.choice(G.DOC_WITH_PATHS)
             test = r.choice(G.TEST_NAMES)
-            fail = r.choice([None, "missing", "type", "custom", "mixed", "mixed"])
+            fail = r.choice([None, "missing", "type", "custom", "mixed", "mixed", "nulltype"])
             ms = G.gen_matchers(r, good, bad, fail)
             if api == "yaml":
                 doc = b"user:\n  name: n\n  age: 3\ntags:\n  - x\n  - y\ntime: t\nok: true\n"
@@ -59,6 +59,15 @@ class C17(Prop):
             return []
         bad, good = ms[-2], ms[-1]
         fails = []
+        if bad[3]["outcome"] == "nocall" or good[3]["outcome"] == "nocall":
+            return []
+        # independent expectation: the generator knows which matcher sets must fail
+        want_fail = case["meta"].get("fail") is not None
+        if want_fail and bad[1]["pre"] != "matcherr":
+            fails.append({"msg": "obs %d: a failing matcher (%s) was not reported: pre=%s outcome=%s"
+                          % (bad[2], case["meta"].get("fail"), bad[1]["pre"][:20], bad[3]["outcome"])})
+        if not want_fail and bad[1]["pre"] == "matcherr":
+            fails.append({"msg": "obs %d: satisfiable matchers reported a failure" % bad[2]})
         if bad[1]["pre"] in ("matcherr", "invalid"):
             o = bad[3]
             if not o["outcome"].startswith("failed:") or o["errors"] != "1" or o["writes"] != "-" or fss[0][2] != fss[1][2]:
